@@ -351,6 +351,10 @@ def run(fx, tier):
                     tested = True
             v.check(tested, 'R-FLOW', inst, 'a branch tests whether to_reason_code() returned a value (the code is in the table) for this packet',
                     key='C20:R-FLOW:%s::%s:admission' % (f.cls, f.n), where='%s:%d' % (f.path_file(), l))
+    # the reason code of a short-form packet (body of one byte) still reaches to_reason_code (shared with C18)
+    from c18 import short_form_rule
+    v.rule('R-SCHEMA', 'Remaining Length 0 - and only 0 - yields the default message for the packets that carry a reason code')
+    short_form_rule(fx, v, 'C20')
     v.expect_min('R-FLOW', 20, 'to_reason_code call sites: category + admission')
     v.expect_min('R-TABLE', 150, 'table rows + server rows + shape')
     v.expect_min('R-DOM', 9 * 5, '9 instantiations × (range, needle, deref, reject, accept)')
